@@ -44,8 +44,9 @@ def finish_subsegment(writer, k=64):
     # while reducing.
     writer.pool.reduce_to(1, k)
 
-    # The filename of the single remaining run
-    runname = writer.pool.runs[0]
+    # The filename of the single remaining run (None if the sub-writer's
+    # documents had no postings at all, e.g. only stored fields)
+    runname = writer.pool.runs[0] if writer.pool.runs else None
     # The indexed field names
     fieldnames = writer.pool.fieldnames
     # The segment object (parent can use this to re-open the files created
@@ -322,8 +323,9 @@ class MpWriter(SegmentWriter):
             docmap = self.write_per_doc(fieldnames, pdr)
             assert docmap is None
 
-            items = self._read_and_renumber_run(runname, basedoc)
-            sources.append(items)
+            if runname is not None:
+                items = self._read_and_renumber_run(runname, basedoc)
+                sources.append(items)
 
         # Create a MultiLengths object combining the length files from the
         # subtask segments
